@@ -1,5 +1,5 @@
 """Registry of units and per-property texts (used for MANIFEST.json and the evidence files)."""
-UNITS = ["frame", "codec", "codec16", "gui", "per", "rc4", "engine", "session", "nego", "cssp", "mcs", "sec", "ntlm"]
+UNITS = ["frame", "codec", "codec16", "gui", "per", "rc4", "engine", "session", "nego", "cssp", "mcs", "sec", "ntlm", "engine2"]
 
 ENGINE_ASM = ("engine contract (prelude/model.rs): Component/Trame/Array/DynOption of src/model/data.rs are assumed to "
               "serialize as the in-order concatenation of their non-skipped fields and to read field by field "
@@ -8,7 +8,7 @@ IO_ASM = "std::io::Read/Write + byteorder contracts (prelude/base.rs): sized rea
 DUPLEX_ASM = "transport duplex axiom (prelude/base.rs axiom_duplex): reading does not change what was written and vice versa (rule R3 adds the marker bound)"
 
 # units under construction: never part of a property check
-DEV_UNITS = {"codec16", "rc4", "mcs", "ntlm"}
+DEV_UNITS = {"codec16", "rc4", "ntlm", "engine2"}
 
 PROPERTIES = {
     "C13": dict(
